@@ -69,4 +69,67 @@ mod verif_kani_value {
         kani::cover!(r.is_ok());
         core::mem::forget(r);
     }
+    // floats, bool and the remaining integer visitors: the value arrives unchanged, in the
+    // variant of its type
+    #[kani::proof]
+    #[kani::unwind(8)]
+    fn k6_toml_floats() {
+        let v: f64 = kani::any();
+        let r = ValueSerializer.serialize_f64(v);
+        match &r {
+            Ok(Value::Float(x)) => {
+                if v.is_nan() {
+                    assert!(x.is_nan() && x.is_sign_positive(), "NaN not kept as a positive NaN");
+                } else {
+                    assert!(x.to_bits() == v.to_bits(), "f64 altered");
+                }
+            }
+            _ => assert!(false, "f64 not serialized to a float"),
+        }
+        kani::cover!(r.is_ok() && v.is_infinite());
+        core::mem::forget(r);
+        let w: f32 = kani::any();
+        let r = ValueSerializer.serialize_f32(w);
+        match &r {
+            Ok(Value::Float(x)) => {
+                if w.is_nan() {
+                    assert!(x.is_nan(), "NaN not kept");
+                } else {
+                    assert!(x.to_bits() == (w as f64).to_bits(), "f32 altered");
+                }
+            }
+            _ => assert!(false, "f32 not serialized to a float"),
+        }
+        core::mem::forget(r);
+        let d: f64 = kani::any();
+        let r: Result<Value, crate::de::Error> =
+            serde::Deserialize::deserialize(serde::de::value::F64Deserializer::new(d));
+        assert!(matches!(&r, Ok(Value::Float(x)) if x.to_bits() == d.to_bits()), "f64 altered by the visitor");
+        kani::cover!(r.is_ok() && d.is_nan());
+        core::mem::forget(r);
+    }
+
+    #[kani::proof]
+    #[kani::unwind(8)]
+    fn k6_toml_visit_rest() {
+        let a: i64 = kani::any();
+        let r: Result<Value, crate::de::Error> =
+            serde::Deserialize::deserialize(serde::de::value::I64Deserializer::new(a));
+        assert!(matches!(&r, Ok(Value::Integer(x)) if *x == a), "i64 altered by the visitor");
+        kani::cover!(r.is_ok() && a < 0);
+        core::mem::forget(r);
+        let b: i32 = kani::any();
+        let r: Result<Value, crate::de::Error> =
+            serde::Deserialize::deserialize(serde::de::value::I32Deserializer::new(b));
+        assert!(matches!(&r, Ok(Value::Integer(x)) if *x == b as i64), "i32 altered by the visitor");
+        core::mem::forget(r);
+        let c: bool = kani::any();
+        let r: Result<Value, crate::de::Error> =
+            serde::Deserialize::deserialize(serde::de::value::BoolDeserializer::new(c));
+        assert!(matches!(&r, Ok(Value::Boolean(x)) if *x == c), "bool altered by the visitor");
+        core::mem::forget(r);
+        let r = ValueSerializer.serialize_bool(c);
+        assert!(matches!(&r, Ok(Value::Boolean(x)) if *x == c), "bool altered");
+        core::mem::forget(r);
+    }
 }
